@@ -2281,8 +2281,12 @@ impl<'a> CompilerState<'a> {
                         .push((str.into(), filename, codesize, bank));
                 }
                 _ => {
+                    // A rule of the grammar that this function does not handle
                     debug!("What's this ? {:?}", pair);
-                    unreachable!()
+                    return Err(self.syntax_error(
+                        "Unsupported declaration",
+                        pair.as_span().start(),
+                    ));
                 }
             }
         }
